@@ -5,6 +5,7 @@ multiversx_sc::imports!();
 multiversx_sc::derive_imports!();
 
 use base_impl_wrapper::FarmStakingWrapper;
+use common_errors::ERROR_NOT_ACTIVE;
 use contexts::storage_cache::StorageCache;
 use farm::{base_functions::DoubleMultiPayment, MAX_PERCENT};
 use farm_base_impl::base_traits_impl::FarmContract;
@@ -113,6 +114,8 @@ pub trait FarmStaking:
     #[payable("*")]
     #[endpoint(mergeFarmTokens)]
     fn merge_farm_tokens_endpoint(&self) -> DoubleMultiPayment<Self::Api> {
+        require!(self.is_active(), ERROR_NOT_ACTIVE);
+
         let caller = self.blockchain().get_caller();
         self.migrate_old_farm_positions(&caller);
 
